@@ -1,7 +1,11 @@
 package main
 
 import (
+	"encoding/json"
 	"fmt"
+	"net"
+	"strings"
+	"sync"
 	"time"
 
 	"github.com/mosaicnetworks/babble/src/config"
@@ -226,8 +230,8 @@ func runC17SuspendCall(cs CaseSpec) *CaseResult {
 		l := &liveNode{Key: keys[i], Peer: ps[i], Trans: trs[i]}
 		conf := config.NewDefaultConfig()
 		conf.LogLevel = "panic"
-		conf.HeartbeatTimeout = 5 * time.Millisecond
-		conf.SlowHeartbeatTimeout = 20 * time.Millisecond
+		conf.HeartbeatTimeout = 10 * time.Millisecond
+		conf.SlowHeartbeatTimeout = 40 * time.Millisecond
 		conf.TCPTimeout = 300 * time.Millisecond
 		conf.SuspendLimit = 1000000
 		conf.CacheSize = 20000
@@ -289,6 +293,40 @@ func runC17SuspendCall(cs CaseSpec) *CaseResult {
 	// (under sustained incoming traffic the wait inside Suspend can take long:
 	// refusal handlers keep being launched while it waits; a wall-clock
 	// watchdog makes such a run inconclusive)
+	// meanwhile many short requests arrive over many connections: every one
+	// launches a handler routine that is over at once, so the number of running
+	// routines keeps touching zero while Suspend() waits for it to be zero
+	floodStop := make(chan struct{})
+	var floodWG sync.WaitGroup
+	if cs.I("flood", 0) == 1 { // off: with the slow store the node drowns in queued handlers and Suspend() never gets its turn
+		req, _ := json.Marshal(&bnet.SyncRequest{FromID: all[1].Peer.ID(), Known: map[uint32]int{}, SyncLimit: 1})
+		payload := append([]byte{1}, append(req, '\n')...)
+		target := a.Trans.LocalAddr()
+		for c := 0; c < int(cs.I("floodconns", 3)); c++ {
+			floodWG.Add(1)
+			go func() {
+				defer floodWG.Done()
+				for {
+					select {
+					case <-floodStop:
+						return
+					default:
+					}
+					conn, err := net.DialTimeout("tcp", target, time.Second)
+					if err != nil {
+						time.Sleep(time.Millisecond)
+						continue
+					}
+					conn.SetDeadline(time.Now().Add(20 * time.Millisecond))
+					conn.Write(payload)
+					conn.Close()
+				}
+			}()
+		}
+		time.Sleep(30 * time.Millisecond)
+		res.count("live_suspend_calls_under_a_flood_of_short_requests", 1)
+	}
+	defer func() { close(floodStop); floodWG.Wait() }()
 	suspDone := make(chan struct{})
 	go func() {
 		a.Node.Suspend()
@@ -596,4 +634,21 @@ func runC17Live(cs CaseSpec) *CaseResult {
 	res.digest("c17live", cs.Seed, cs.Index, mode, limit)
 	res.Sample = map[string]interface{}{"kind": "live node(s) losing quorum", "mode": mode, "limit": limit, "watched": len(watched), "suspended": len(suspended)}
 	return res
+}
+
+func init() {
+	// A live C17 case whose worker dies of Go's WaitGroup-misuse panic raised
+	// under Node.Suspend / Node.Shutdown (the wait for the node's routines
+	// racing with the launch of a handler for an incoming request) is a node
+	// that died while suspending itself instead of going on answering sync
+	// requests.
+	crashHandlers["C17"] = func(r *CaseResult) *Violation {
+		if r.Case.Kind != "live" || !strings.Contains(r.Note, "WaitGroup is reused before previous Wait has returned") {
+			return nil
+		}
+		sig := "C17:node-dies-while-suspending"
+		msg := "a live node died of 'sync: WaitGroup is reused before previous Wait has returned' while it was suspending itself under incoming requests: the wait for its routines (state.Manager.WaitRoutines) raced with the launch of a handler (GoFunc)"
+		path := writeWitness(r.Case, "C17", sig, msg, map[string]interface{}{"output": r.Note})
+		return &Violation{Prop: "C17", Sig: sig, Msg: msg, Replay: path}
+	}
 }
